@@ -644,7 +644,13 @@ func TestDriveCompass(t *testing.T) {
 		r := w.newRun(cctx.WithBlockHeight(w.base.BlockHeight() + 1))
 		r.height = r.ctx.BlockHeight()
 		em.Emit(map[string]any{"h": h.H, "i": 0, "act": "Init", "obs": r.observe()})
-		for i, s := range h.Steps {
+		steps := []drv.Step{}
+		for _, s := range h.Steps {
+			if s.Act != "Init" { // replay files list the driver's own Init event as a step
+				steps = append(steps, s)
+			}
+		}
+		for i, s := range steps {
 			res, extra := r.step(s)
 			ev := map[string]any{"h": h.H, "i": i + 1, "act": s.Act, "args": json.RawMessage(s.Args), "res": res, "obs": r.observe()}
 			for k, v := range extra {
